@@ -217,7 +217,14 @@ def errsig(e):
         code = getattr(e, 'code', None)
         if code is None and len(getattr(e, 'args', ())) > 1 and isinstance(e.args[1], str):
             code = e.args[1]
-    return [type(e).__name__, code, str(e)[:200]]
+    where = None
+    tb = e.__traceback__
+    while tb is not None:       # innermost frame inside the vtlengine package
+        fn = tb.tb_frame.f_code.co_filename
+        if '/vtlengine/' in fn and '/vtlstub' not in fn:
+            where = '%s.%s' % (os.path.basename(fn)[:-3], tb.tb_frame.f_code.co_name)
+        tb = tb.tb_next
+    return [type(e).__name__, code, str(e)[:200], where]
 
 
 # ------------------------------------------------------------------ the per-script analysis (worker)
@@ -402,28 +409,29 @@ def run_pair(job):
                     res = run(script=script, data_structures=ds, datapoints=dp, value_domains=vds,
                               external_routines=ers, return_only_persistent=False)
                     outs.append(('ok', canon_results(res)))
-                except Budget:
-                    raise
                 except Exception as e:  # noqa: BLE001
+                    if 'interrupted' in str(e).lower():     # DuckDB's answer to the SIGALRM of the guard
+                        raise Budget()
                     outs.append(('err', errsig(e)))
-                # persistence is visible through return_only_persistent=True
-            try:
+            if job.get('persistent_check') and outs[0][0] == 'ok' and outs[1][0] == 'ok':
                 ds, dp, vds, ers = _load_inputs(job)
-                rec['persistent_names_text'] = sorted(run(script=text, data_structures=ds, datapoints=dp, value_domains=vds,
-                                                          external_routines=ers, return_only_persistent=True))
+                a = sorted(run(script=text, data_structures=ds, datapoints=dp, value_domains=vds,
+                               external_routines=ers, return_only_persistent=True))
                 ds, dp, vds, ers = _load_inputs(job)
-                rec['persistent_names_scheme'] = sorted(run(script=sch, data_structures=ds, datapoints=dp, value_domains=vds,
-                                                            external_routines=ers, return_only_persistent=True))
-            except Budget:
-                raise
-            except Exception as e:  # noqa: BLE001
-                rec['persistent_err'] = errsig(e)
+                b = sorted(run(script=sch, data_structures=ds, datapoints=dp, value_domains=vds,
+                               external_routines=ers, return_only_persistent=True))
+                rec['persistent_names_text'], rec['persistent_names_scheme'] = a, b
     except Budget:
         rec['timeout'] = True
         return rec
     except RecursionError:
         rec['recursion'] = True
         return rec
+    except Exception as e:  # noqa: BLE001   (only the optional persistence runs can get here)
+        if 'interrupted' in str(e).lower() or len(outs) != 2:
+            rec['timeout'] = True
+            return rec
+        rec['persistent_err'] = errsig(e)
     (k1, v1), (k2, v2) = outs
     rec['text_outcome'], rec['scheme_outcome'] = k1, k2
     if k1 == 'ok' and k2 == 'ok':
@@ -432,7 +440,7 @@ def run_pair(job):
         rec['n_rows'] = sum(len(x[2] or []) for x in v1.values() if x[0] == 'ds')
     elif k1 == 'err' and k2 == 'err':
         rec['err_text'], rec['err_scheme'] = v1, v2
-        rec['diff'] = None if v1[:2] == v2[:2] else 'different errors %r vs %r' % (v1[:2], v2[:2])
+        rec['diff'] = None if v1[:2] == v2[:2] else 'different errors %r vs %r' % (v1[:3], v2[:3])
     else:
         rec['err_text'] = v1 if k1 == 'err' else None
         rec['err_scheme'] = v2 if k2 == 'err' else None
@@ -480,31 +488,31 @@ FULL = [
     '{a} + {b}', '{a} - {b}', '{a} * 2', '{a} * 2.5', '{a} / 4', 'abs({a})', 'round({a}, 1)', '-{a}', '({a} + {b}) * 3',
     '{a}[filter Me_1 > 3]', '{a}[filter Id_2 = "A" or Me_2 <= 7.25]', 'nvl({a}, 0)', '{a}[calc Me_1 := Me_1 + Me_2]',
     'union({a}, {b})', '{a}[calc Me_2 := Me_2 * 2][filter Me_1 >= 0]', 'inner_join({a} as d1, {b} as d2 keep d1#Me_1, d2#Me_2)',
-    'if {a} > 2 then {a} else {b}', '{a}[calc Me_1 := if Me_1 > 2 then Me_1 else Me_2]', 'mod({a}, 5)', 'power({a}, 2)',
+    'if {a}#Me_1 > 2 then {a} else {b}', '{a}[calc Me_1 := if Me_1 > 2 then Me_1 else Me_2]', 'mod({a}, 5)', 'power({a}, 2)',
     'ceil({a}) + floor({b})', '{a}[calc Me_2 := nvl(Me_2, 0.5)]', 'setdiff({a}, {b})', 'trunc({a}, 1)',
     '{a}[calc Me_1 := case when Me_1 > 5 then 1 when Me_1 > 2 then 2 else 3]', 'intersect({a}, {b})',
 ]
 # templates with another result structure (never used as operands)
 LEAF = [
     '{a}#Me_1', '{a}[keep Me_1]', '{a}[drop Me_2]', '{a}[rename Me_1 to Me_9]', 'sum({a} group by Id_1)',
-    '{a}[aggr Me_3 := sum(Me_1), Me_4 := max(Me_2) group by Id_1]', '{a} > 2', '{a} = {b}', 'count({a} group by Id_2)',
-    'check({a}#Me_1 > {b}#Me_1 errorcode "E1" errorlevel 2 imbalance {a}#Me_1 - {b}#Me_1)', 'check({a} >= 0 all)',
+    '{a}[aggr Me_3 := sum(Me_1), Me_4 := max(Me_2) group by Id_1]', '{a}#Me_1 > 2', '{a}#Me_2 = {b}#Me_2', '{a}[keep Me_1] >= {b}[keep Me_1]', 'count({a} group by Id_2)',
+    'check({a}#Me_1 > {b}#Me_1 errorcode "E1" errorlevel 2 imbalance {a}#Me_1 - {b}#Me_1)', 'check({a}#Me_1 >= 0 all)',
     '{a}[calc Me_3 := sum(Me_1 over (partition by Id_1))]', '{a}[calc Me_3 := rank(over (partition by Id_1 order by Me_1 desc))]',
     '{a}[calc Me_3 := cast(Me_1, string)]', '{a}[calc Me_3 := Me_1 in {{1, 2, 3}}]', '{a}[calc Me_3 := between(Me_1, 1, 5)]',
-    '{a}[calc identifier Id_3 := Id_2 || "x"]', '{a}[sub Id_2 = "A"]', 'exists_in({a}, {b})', 'isnull({a})',
+    '{a}[calc identifier Id_3 := Id_2 || "x"]', '{a}[sub Id_2 = "A"]', 'exists_in({a}, {b})', 'isnull({a}#Me_1)',
     '{a}[calc Me_3 := substr(Id_2, 1, 1), Me_4 := length(Id_2)]', 'avg({a} group except Id_2)', 'min({a}#Me_2 group by Id_2)',
     'left_join({a} as d1, {b} as d2 filter d1#Me_1 > 0 calc Me_3 := d1#Me_1 + d2#Me_2 keep Me_3)',
     '{a}[calc Me_3 := Me_1 > 1 and not (Me_2 < 3) xor Me_1 = Me_2]', '{a}[calc Me_3 := upper(Id_2) || lower("Z") || trim(" q ")]',
     '{a}[calc Me_3 := sqrt(abs(Me_1)) + exp(0) + ln(1) + log(8, 2)]', '{a}[filter Me_1 <> 2][keep Me_2]',
     '{a}[calc Me_3 := lag(Me_1, 1 over (partition by Id_2 order by Id_1))]', '{a}[unpivot Id_3, Me_3]',
     '{a}[calc Me_3 := first_value(Me_1 over (partition by Id_2 order by Id_1 data points between 1 preceding and current data point))]',
-    'max({a} group by Id_1 having count() > 1)', '{a}[calc Me_3 := instr(Id_2, "A") + 1]', '{a}[calc Me_3 := replace(Id_2, "A", "B")]',
+    'max({a}#Me_1 group by Id_1 having count() > 1)', '{a}[calc Me_3 := instr(Id_2, "A") + 1]', '{a}[calc Me_3 := replace(Id_2, "A", "B")]',
     'symdiff({a}, {b})', '{a}[calc attribute At_1 := "x"]', '{a}[calc Me_3 := null]', '{a}[calc Me_3 := true]',
     'cross_join({a} as d1, {b} as d2 rename d1#Me_1 to M1, d1#Me_2 to M2, d2#Me_1 to M3, d2#Me_2 to M4, d1#Id_1 to I1, d1#Id_2 to I2, d2#Id_1 to I3, d2#Id_2 to I4)',
 ]
 SCALARS = ['3 + 4', '"a" || "b"', 'round(2.345, 2)', 'true and false', '10 / 4', 'abs(-3)', 'length("abc")', '2.5 * 4']
 DP_RULESETS = [
-    ('variable', 'define datapoint ruleset {n} (variable Me_1 as M, Me_2) is\n  r1: when M > 0 then Me_2 >= 0 errorcode "neg" errorlevel 2;\n  M < 1000\nend datapoint ruleset;'),
+    ('variable', 'define datapoint ruleset {n} (variable Me_1 as M, Me_2) is\n  r1: when M > 0 then Me_2 >= 0 errorcode "neg" errorlevel 2;\n  r2: M < 1000\nend datapoint ruleset;'),
     ('variable', 'define datapoint ruleset {n} (variable Id_2, Me_1) is when Id_2 = "A" then Me_1 > 1 errorcode "e" end datapoint ruleset;'),
     ('variable', 'define datapoint ruleset {n} (variable Me_1) is Me_1 >= 0 errorlevel 5 end datapoint ruleset;'),
     ('valuedomain', 'define datapoint ruleset {n} (valuedomain VD_num as M) is M > 0 end datapoint ruleset;'),
@@ -520,14 +528,15 @@ UDOS = [
     ('ds_ds', 'define operator {n} (x dataset, y dataset) returns dataset is x - y end operator;'),
     ('comp', 'define operator {n} (c component, k number default 2.5) returns component is c * k end operator;'),
     ('ds', 'define operator {n} (x dataset) returns dataset is x[filter Me_1 > 0] end operator;'),
-    ('str', 'define operator {n} (s string) returns string is upper(s) end operator;'),
+    ('str', 'define operator {n} (s component) returns component is upper(s) end operator;'),
+    ('scal', 'define operator {n} (s string, k integer default 2) returns string is substr(upper(s), 1, k) end operator;'),
 ]
 VIRALS = [
     'define viral propagation {n} (variable VAt_1) is\n  when "C" then "C";\n  when "N" then "N";\n  else "F"\nend viral propagation;',
     'define viral propagation {n} (variable VAt_1) is when "C" and "N" then "X"; else "F" end viral propagation;',
     'define viral propagation {n} (variable VAt_1) is aggregate max end viral propagation;',
 ]
-VIRAL_EXPRS = ['{a} + {b}', 'inner_join({a}, {b})', '{a} * 2', '{a} - {b}', '{a}[filter Me_1 > 1]']
+VIRAL_EXPRS = ['{a} + {b}', '{a} * 2', '{a} - {b}', '{a}[filter Me_1 > 1]', 'abs({a})', '{a} / {b}']
 
 
 def _ident(rng, used, reserved):
@@ -557,14 +566,15 @@ def gen_script(rng, reserved, viral=False):
         else:
             k, t = rng.choice(UDOS); stmts.append(('U', n, None, t.replace('{n}', n))); udos.append((n, k))
     if viral:
-        for _ in range(rng.choice([1, 1, 2])):
+        for _ in range(1):      # one rule per viral attribute (two for the same variable is error 1-3-3-1)
             n = _ident(rng, used, reserved)
             stmts.append(('V', n, None, rng.choice(VIRALS).replace('{n}', n)))
     full = ['DS_1', 'DS_2']
     n_as = rng.choice([1, 1, 2, 3, 4, 5, 6, 8])
     for _ in range(n_as):
         n = _ident(rng, used, reserved)
-        a, b = rng.choice(full), rng.choice(full)
+        a = rng.choice(full)
+        b = rng.choice([x for x in full if x != a])
         r = rng.random()
         is_full = False
         if viral:
@@ -584,7 +594,8 @@ def gen_script(rng, reserved, viral=False):
         elif udos:
             u, k = rng.choice(udos)
             e = {'ds_int': rng.choice(['%s({a}, 2)', '%s({a})']) % u, 'ds_ds': '%s({a}, {b})' % u, 'ds': '%s({a})' % u,
-                 'comp': '{a}[calc Me_3 := %s(Me_1, 3)]' % u, 'str': '{a}[calc Me_3 := %s(Id_2)]' % u}[k]
+                 'comp': '{a}[calc Me_3 := %s(Me_1, 3)]' % u, 'str': '{a}[calc Me_3 := %s(Id_2)]' % u,
+                 'scal': '%s("abc")' % u}[k]
             is_full = k in ('ds_int', 'ds_ds', 'ds')
         else:
             e = rng.choice(FULL); is_full = True
